@@ -646,7 +646,11 @@ class Glob(Generic[AnyStr]):
                     for f in scan:
                         try:
                             hidden = self._is_hidden(f.name)  # type: ignore[arg-type]
-                            is_dir = f.is_dir()
+                            try:
+                                is_dir = f.is_dir()
+                            except OSError:
+                                # E.g. a symlink loop: the entry exists, but it is not a directory.
+                                is_dir = False
                             if is_dir:
                                 is_link = f.is_symlink()
                             else:
